@@ -418,53 +418,18 @@ def _scatter(ctx) -> None:
                 continue
             try:
                 src, steps = _peel(v, K)
+                # _mix64(A if c else B): each alternative is a source of its own under the same outer steps
+                alts = []
+                for alt in _leaves(src):
+                    s2, st2 = _peel(alt, K)
+                    alts.append((s2, steps + st2))
             except _NotInjective as ex:
                 ctx.ob("f.scatter", g, role, False, "", e.node,
                        message=f"`return {show(v, gi)[:60]}`: {ex}: distinct values that Python's hash() tells apart (5 / -5) "
                                f"would share a fingerprint")
                 continue
-            kind = None
-            if src[0] == "call" and src[1] == ("name", "hash") and len(src[2]) == 1 and not src[3]:
-                kind = "hash"
-            elif src[0] == "call" and src[1] == ("name", "int") and len(src[2]) == 1 and src[2][0][0] == "call" \
-                    and src[2][0][1][0] == "attr" and src[2][0][1][2] == "fingerprint":
-                kind = "child fingerprint"
-            elif src[0] == "after":
-                kind = "nested fold"
-            elif src[0] == "call" and src[1] in gh:
-                kind = "element hash of a rebuilt value"
-            if kind is None:
-                raise AnalysisError(f"{g.qualname}: `return {show(v, gi)[:70]}`: source `{show(src, gi)[:50]}` is neither hash(), a child "
-                                    f"fingerprint, a nested fold nor a recursive element hash; its injectivity is not decided")
-            probs = []
-            inner_first = list(reversed(steps))
-            # range discipline: xor / xor-shift are bijections of [0, 2**64) only: a signed hash() must be masked (or multiplied) first
-            signed = kind == "hash"
-            for st in inner_first:
-                if st[0] in ("mask", "mul", "add"):
-                    signed = False
-                elif signed:
-                    probs.append(f"{st[0]} applied to the signed hash() before it is reduced to 64 bits")
-                    break
-            if not any(st[0] == "xorshift" for st in steps) or not any(st[0] == "mul" and st[1] not in (1, _M64) for st in steps):
-                probs.append(f"the {kind} enters the linear fold "
-                             + ("raw" if not steps else "without a xor-shift and an odd multiplication")
-                             + {"hash": ": hash(int) is the int itself, so -5 and 2**61-6 are merged by `% P` and [a, b] ~ [a+d, b-d*B]",
-                                "child fingerprint": ": the table fold and the column fold are one polynomial in the same base, so the "
-                                                     "weight of a cell depends on row+column only (a 2x2 table ~ its transpose)",
-                                "nested fold": ": a container and its only item / the same items one level up share a hash",
-                                "element hash of a rebuilt value": ": the value and the value it is rebuilt as ({1, 2} / (1, 2)) share a hash"}[kind])
-            if kind == "nested fold":
-                lp = gi.loops[src[2]]
-                init = lp.carried.get(src[1], (None, None))[0]
-                ln = ("call", ("name", "len"), (lp.iter,), ())
-                if init is None or ln not in list(subterms(init)):
-                    probs.append("the nested fold does not start from the container's length: () ~ (0,) ~ 0 and (1, 2) ~ (0, 1, 2)")
-                else:
-                    seeds.append((e, lp, init))
-            ctx.ob("f.scatter", g, role, not probs, f"{kind}: " + " . ".join(
-                f"{st[0]}{'' if len(st) == 1 else ' ' + (hex(st[1]) if st[0] != 'xorshift' else str(st[1]))}" for st in inner_first),
-                e.node, message=f"`return {show(v, gi)[:50]}`: " + "; ".join(probs))
+            for k_, (src, steps) in enumerate(alts):
+                _judge_source(ctx, g, gi, e, v, role if len(alts) == 1 else f"{role}.{k_ + 1}", src, steps, gh, seeds)
     # container types sharing a fold must be told apart by the seed
     for e, lp, init in seeds:
         types = []
@@ -480,6 +445,52 @@ def _scatter(ctx) -> None:
                f"nested fold over {'/'.join(types)}: seeded by len() and a per-type tag", e.node,
                message=f"the fold over {' and '.join(types) or 'the container'} starts from the same value for each type: (1, 2) and "
                        f"[1, 2] are unequal but share a hash")
+
+
+def _judge_source(ctx, g, gi, e, v, role, src, steps, gh, seeds) -> None:
+    from ..symx import show, subterms
+    kind = None
+    if src[0] == "call" and src[1] == ("name", "hash") and len(src[2]) == 1 and not src[3]:
+        kind = "hash"
+    elif src[0] == "call" and src[1] == ("name", "int") and len(src[2]) == 1 and src[2][0][0] == "call" \
+            and src[2][0][1][0] == "attr" and src[2][0][1][2] == "fingerprint":
+        kind = "child fingerprint"
+    elif src[0] == "after":
+        kind = "nested fold"
+    elif src[0] == "call" and src[1] in gh:
+        kind = "element hash of a rebuilt value"
+    if kind is None:
+        raise AnalysisError(f"{g.qualname}: `return {show(v, gi)[:70]}`: source `{show(src, gi)[:50]}` is neither hash(), a child "
+                            f"fingerprint, a nested fold nor a recursive element hash; its injectivity is not decided")
+    probs = []
+    inner_first = list(reversed(steps))
+    # range discipline: xor / xor-shift are bijections of [0, 2**64) only: a signed hash() must be masked (or multiplied) first
+    signed = kind == "hash"
+    for st in inner_first:
+        if st[0] in ("mask", "mul", "add"):
+            signed = False
+        elif signed:
+            probs.append(f"{st[0]} applied to the signed hash() before it is reduced to 64 bits")
+            break
+    if not any(st[0] == "xorshift" for st in steps) or not any(st[0] == "mul" and st[1] not in (1, _M64) for st in steps):
+        probs.append(f"the {kind} enters the linear fold "
+                     + ("raw" if not steps else "without a xor-shift and an odd multiplication")
+                     + {"hash": ": hash(int) is the int itself, so -5 and 2**61-6 are merged by `% P` and [a, b] ~ [a+d, b-d*B]",
+                        "child fingerprint": ": the table fold and the column fold are one polynomial in the same base, so the "
+                                             "weight of a cell depends on row+column only (a 2x2 table ~ its transpose)",
+                        "nested fold": ": a container and its only item / the same items one level up share a hash",
+                        "element hash of a rebuilt value": ": the value and the value it is rebuilt as ({1, 2} / (1, 2)) share a hash"}[kind])
+    if kind == "nested fold":
+        lp = gi.loops[src[2]]
+        init = lp.carried.get(src[1], (None, None))[0]
+        ln = ("call", ("name", "len"), (lp.iter,), ())
+        if init is None or ln not in list(subterms(init)):
+            probs.append("the nested fold does not start from the container's length: () ~ (0,) ~ 0 and (1, 2) ~ (0, 1, 2)")
+        else:
+            seeds.append((e, lp, init))
+    ctx.ob("f.scatter", g, role, not probs, f"{kind}: " + " . ".join(
+        f"{st[0]}{'' if len(st) == 1 else ' ' + (hex(st[1]) if st[0] != 'xorshift' else str(st[1]))}" for st in inner_first),
+        e.node, message=f"`return {show(v, gi)[:50]}`: " + "; ".join(probs))
 
 
 def _freeze(t):
